@@ -2,6 +2,7 @@ package props
 
 import (
 	"fmt"
+	"go/types"
 	"strings"
 
 	"gmslverif/fw"
@@ -692,7 +693,7 @@ func checkV1Order(c *fw.Ctx) {
 		return
 	}
 	calls := fw.CallsTo(fn, false, fw.NameIs("(*gmsl.stateResolver).resolveAndAddAuthBlocks"))
-	var order []string
+	var order, together []string
 	last := ""
 	for _, b := range fn.Blocks {
 		for _, ins := range b.Instrs {
@@ -707,22 +708,52 @@ func checkV1Order(c *fw.Ctx) {
 			if call, ok := ins.(ssa.CallInstruction); ok && fw.CalleeName(call) == "(*gmsl.stateResolver).resolveAndAddAuthBlocks" {
 				order = append(order, last)
 				last = ""
+				// which of the five per-type fields the blocks handed to this call are read from
+				args := call.Common().Args
+				set, dynamic := map[string]bool{}, false
+				for _, a := range args {
+					if sl, isSl := a.Type().Underlying().(*types.Slice); isSl {
+						if _, inner := sl.Elem().Underlying().(*types.Slice); inner {
+							v1BlockFields(a, 0, map[ssa.Value]bool{}, set, &dynamic)
+						}
+					}
+				}
+				if len(set) > 1 && !dynamic {
+					together = append(together, strings.Join(sortedSet(set), "+"))
+				}
 			}
 		}
 	}
 	want := "creates,powerLevels,joinRules,thirdPartyInvites,members"
-	c.Check(strings.Join(order, ",") == want, rule, "v1 resolves auth types in the order create, power_levels, join_rules, third-party invites, members", c.P.Pos(fn.Pos()), "", "order is "+strings.Join(order, ","))
+	{
+		construct := "v1 resolves auth types in the order create, power_levels, join_rules, third-party invites, members"
+		got := strings.Join(order, ",")
+		complete := len(order) == 5 && !strings.Contains(","+got+",", ",,")
+		switch {
+		case len(together) > 0:
+			// resolveAndAddAuthBlocks registers its winners only after all blocks it was given are
+			// resolved: two auth types handed over in one call do not see each other's outcome
+			c.Fail(rule, construct, c.P.Pos(fn.Pos()), "several auth types are resolved in one step ("+strings.Join(together, ", ")+"): the later type is authorised without the earlier type's resolved event")
+		case got == want:
+			c.Ok(rule, construct, c.P.Pos(fn.Pos()), got)
+		case complete:
+			// the five per-type calls are all there, in another order
+			c.Fail(rule, construct, c.P.Pos(fn.Pos()), "order is "+got)
+		default:
+			c.Undecided(rule, construct, "the five per-type resolution steps were not recognised as separate calls (a table or loop drives them): saw "+got)
+		}
+	}
 	for i := 1; i < len(calls); i++ {
 		a, b := calls[i-1], calls[i]
 		_, bad := fw.MustPrecede(fn, func(x ssa.Instruction) bool { return x == a.(ssa.Instruction) }, func(x ssa.Instruction) bool { return x == b.(ssa.Instruction) })
 		c.Check(len(bad) == 0, rule, fmt.Sprintf("v1 stage %d precedes stage %d", i, i+1), c.P.Pos(b.Pos()), "", "stages out of order")
 	}
 	n := len(fw.CallsTo(fn, false, fw.NameIs("(*gmsl.stateResolver).resolveNormalBlock")))
-	c.Check(n == 1, rule, "v1 resolves the remaining state after the auth types", c.P.Pos(fn.Pos()), "", fmt.Sprintf("%d resolveNormalBlock sites", n))
+	c.Expect(n == 1, rule, "v1 resolves the remaining state after the auth types", c.P.Pos(fn.Pos()), "", fmt.Sprintf("%d resolveNormalBlock sites in ResolveStateConflicts itself", n))
 	// blocks are sorted by the v1 comparator before being walked
 	for _, spec := range []string{"(*stateResolver).resolveAuthBlock", "(*stateResolver).resolveNormalBlock"} {
 		if f := mustFunc(c, rule, spec); f != nil {
-			c.Check(len(fw.CallsTo(f, false, fw.NameIs("gmsl.sortConflictedEventsByDepthAndSHA1"))) == 1, rule, spec+" sorts the conflicted block by depth and SHA-1", c.P.Pos(f.Pos()), "", "block is not sorted with the v1 comparator")
+			c.Expect(len(deepCallsTo(f, fw.NameIs("gmsl.sortConflictedEventsByDepthAndSHA1"))) >= 1, rule, spec+" sorts the conflicted block by depth and SHA-1", c.P.Pos(f.Pos()), "", "no call of the v1 comparator sort was found in the routine or its helpers")
 		}
 	}
 }
@@ -740,4 +771,73 @@ func isAlgoAtom(atom string) bool {
 		return false
 	}
 	return isAlgoValue(bo.X) || isAlgoValue(bo.Y)
+}
+
+// v1BlockFields collects the per-type fields of the v1 resolver (creates, powerLevels, ...)
+// that the value v - a list of blocks - is built from. dynamic: an element was selected with a
+// non-constant index (a table walked by a loop), so which fields reach this use is not known.
+func v1BlockFields(v ssa.Value, depth int, seen map[ssa.Value]bool, set map[string]bool, dynamic *bool) {
+	if depth > 10 || seen[v] {
+		return
+	}
+	seen[v] = true
+	rec := func(x ssa.Value) { v1BlockFields(x, depth+1, seen, set, dynamic) }
+	switch x := v.(type) {
+	case *ssa.UnOp:
+		rec(x.X)
+	case *ssa.FieldAddr:
+		if st := derefStructOf(x.X.Type()); st != nil {
+			switch n := st.Field(x.Field).Name(); n {
+			case "creates", "powerLevels", "joinRules", "thirdPartyInvites", "members":
+				set[n] = true
+				return
+			}
+		}
+		rec(x.X)
+	case *ssa.Slice:
+		rec(x.X)
+	case *ssa.IndexAddr:
+		if _, isC := x.Index.(*ssa.Const); !isC {
+			*dynamic = true
+		}
+		rec(x.X)
+	case *ssa.Index:
+		if _, isC := x.Index.(*ssa.Const); !isC {
+			*dynamic = true
+		}
+		rec(x.X)
+	case *ssa.Phi:
+		for _, e := range x.Edges {
+			rec(e)
+		}
+	case *ssa.Alloc:
+		for _, ref := range *x.Referrers() {
+			switch r := ref.(type) {
+			case *ssa.Store:
+				if r.Addr == ssa.Value(x) {
+					rec(r.Val)
+				}
+			case *ssa.IndexAddr:
+				for _, r2 := range *r.Referrers() {
+					if st, ok := r2.(*ssa.Store); ok && st.Addr == ssa.Value(r) {
+						rec(st.Val)
+					}
+				}
+			case *ssa.FieldAddr:
+				for _, r2 := range *r.Referrers() {
+					if st, ok := r2.(*ssa.Store); ok && st.Addr == ssa.Value(r) {
+						rec(st.Val)
+					}
+				}
+			}
+		}
+	case *ssa.Call:
+		if fw.CalleeName(x) == "builtin.append" {
+			for _, a := range x.Call.Args {
+				rec(a)
+			}
+		}
+	case *ssa.Parameter, *ssa.Extract, *ssa.Lookup, *ssa.Next:
+		*dynamic = true
+	}
 }
